@@ -4,11 +4,12 @@
    Bit order convention of the detection theorems: serial order = byte 0 first, least significant bit first
    within a byte (Codec/BitErr.v).  "Burst of at most 32 contiguous bits" is read in this order; every
    byte-aligned window of at most 4 bytes is such a window in either bit order.  In the other reading (bits
-   numbered most significant first within bytes) an unaligned 32-bit window spans 40 serial positions, and the
-   claim is FALSE: C03_chunk_burst32_msb_first_refuted exhibits an accepted chunk and a 32-contiguous-bit
-   (MSB-first) change of its payload that is accepted too (replayed on the implementation: accepted). *)
+   numbered most significant first within bytes) an unaligned window spans up to 40 serial positions: there every
+   burst of at most 31 bits is rejected (C03_chunk_burst31_msb_first_rejected) but the claim for exactly 32 bits is
+   FALSE: C03_chunk_burst32_msb_first_refuted exhibits an accepted chunk and a 32-contiguous-bit (MSB-first)
+   change of its payload that is accepted too (replayed on the implementation: accepted). *)
 From AG Require Import Base.Prelude Base.Res Base.Bytes Codec.Crc32c Codec.CrcHD Codec.BitErr
-  Codec.Chunk Codec.ChunkObs Codec.Chunk_proofs Codec.Crc32c_proofs Codec.ChunkDetect_proofs.
+  Codec.Chunk Codec.ChunkObs Codec.Chunk_proofs Codec.Crc32c_proofs Codec.ChunkDetect_proofs Codec.CrcMsb_proofs.
 
 (* accepted <-> field ranges hold and the bytes are the documented layout of the fields, with both CRC words
    computed by the encoder; any device table, both overflow modes *)
@@ -99,15 +100,26 @@ Proof.
 Qed.
 Print Assumptions C03_chunk_burst32_rejected.
 
-(* REFUTED under the MSB-first reading of "burst of up to 32 contiguous bits": there is an accepted chunk l and a
-   byte string l' of the same length, differing from l exactly inside bits 161..192 (MSB-first numbering: 32
-   contiguous bits of the payload), which is accepted as well, with a different payload.  The error polynomial
-   (bytes 62 95 e3 fd 80 xor-ed onto 5 consecutive payload bytes) is a multiple of the CRC-32C generator. *)
+(* The other reading of "contiguous bits": bits numbered most significant first within bytes (Codec/CrcMsb_proofs.v:
+   burst_msb len l l' = every differing bit, at byte j and MSB-first offset t, has 8j+t in one window of len).
+   Such a window touches up to 5 bytes = 40 serial positions.  Every change inside at most 31 such bits is
+   rejected (finite check of the 255 x 8 candidate multiples of the generator, by computation) ... *)
+Theorem C03_chunk_burst31_msb_first_rejected : forall devices m l l' c, bytes l -> bytes l' ->
+  chunk_decode devices m l = Ok c -> length l' = length l -> l' <> l -> burst_msb 31 l l' ->
+  exists k, chunk_decode devices m l' = Err k.
+Proof. exact chunk_burst31_msb_rejected_lemma. Qed.
+Print Assumptions C03_chunk_burst31_msb_first_rejected.
+
+(* ... but for exactly 32 bits the claim is REFUTED in this reading: there is an accepted chunk l and a byte string
+   l' of the same length, differing from l exactly inside MSB-first bits 161..192 (32 contiguous bits of the
+   payload), which is accepted as well, with a different payload.  The error pattern (bytes 62 95 e3 fd 80
+   xor-ed onto 5 consecutive bytes of one codeword; the only other one is 01 03 83 6b f2) is a multiple of the
+   CRC-32C generator.  Replayed on the implementation: accepted. *)
 Theorem C03_chunk_burst32_msb_first_refuted :
   exists devices m l l' c c',
     bytes l /\ bytes l' /\ chunk_decode devices m l = Ok c /\ length l' = length l /\ l' <> l /\
-    burst32_msb l l' /\ chunk_decode devices m l' = Ok c' /\ c_payload c' <> c_payload c.
-Proof. exact chunk_burst32_msb_first_refuted_lemma. Qed.
+    burst_msb 32 l l' /\ chunk_decode devices m l' = Ok c' /\ c_payload c' <> c_payload c.
+Proof. exact chunk_burst32_msb_refuted_lemma. Qed.
 Print Assumptions C03_chunk_burst32_msb_first_refuted.
 
 (* ---------- non-vacuity ---------- *)
